@@ -1673,3 +1673,66 @@ func ruleCatchScope(c *Ctx, r *Report) {
 func isRecoverSig(sig *types.Signature) bool {
 	return sig.Recv() == nil && sig.Params().Len() == 1 && sig.Results().Len() == 1 && isErrorType(sig.Params().At(0).Type()) && isNamedIn(deref(sig.Results().At(0).Type()), enginePkgPath, "Promise")
 }
+
+// ---------------------------------------------------------------------------
+// R-SEQ-FLATTEN (C03, C17; added with fix F20): a clause body is compiled goal by goal from the sequence
+// iterator; whatever the iterator yields as ONE element is compiled as ONE call. Conjunction is
+// associative - ((A, B), C) is the sequence A, B, C - so the iterator has to look at the LEFT operand of a
+// conjunction too: a conjunction yielded as an element becomes a call of ','/2, inside which a cut is local.
+// The DCG translation writes every non-final '!' as (!, S0 = S) on the left of a conjunction.
+// Checked: in the iterator's Next there is an inspection of the resolved left operand (Arg(0)) of the
+// sequence term for the functor ','/2. (Existence only: that the re-association is right is not decided.)
+
+func ruleSeqFlatten(c *Ctx, r *Report) {
+	const rule = "R-SEQ-FLATTEN"
+	next := c.method("seqIterator", "Next")
+	comma := c.global("atomComma")
+	resolve := c.method("Env", "Resolve")
+	if next == nil || comma == nil || resolve == nil {
+		r.undecided(rule, "anchor", "-", "locate seqIterator.Next, atomComma, Env.Resolve", "not found")
+		return
+	}
+	desc := "the sequence iterator inspects the left operand of a conjunction for a nested conjunction"
+	var hit ssa.Instruction
+	ncmp := 0
+	eachInstr(next, func(in ssa.Instruction) {
+		bo, ok := in.(*ssa.BinOp)
+		if !ok || (bo.Op != token.EQL && bo.Op != token.NEQ) {
+			return
+		}
+		for _, pair := range [][2]ssa.Value{{bo.X, bo.Y}, {bo.Y, bo.X}} {
+			fc, ok := pair[0].(*ssa.Call)
+			if !ok || !fc.Call.IsInvoke() || fc.Call.Method.Name() != "Functor" {
+				continue
+			}
+			ld, ok := pair[1].(*ssa.UnOp)
+			if !ok || ld.Op != token.MUL || ld.X != ssa.Value(comma) {
+				continue
+			}
+			ncmp++
+			// receiver <- (type assertion of) Resolve(X.Arg(0))
+			for _, l := range c.originSet(fc.Call.Value) {
+				rc, _ := callOfValue(l)
+				if rc == nil || rc.Call.StaticCallee() != resolve || len(rc.Call.Args) < 2 {
+					continue
+				}
+				for _, l2 := range c.originSet(rc.Call.Args[1]) {
+					ac, _ := callOfValue(l2)
+					if ac == nil || !ac.Call.IsInvoke() || ac.Call.Method.Name() != "Arg" || len(ac.Call.Args) != 1 {
+						continue
+					}
+					if k, ok := constInt(ac.Call.Args[0]); ok && k == 0 {
+						hit = in
+					}
+				}
+			}
+		}
+	})
+	key := fname(next) + "/left-operand"
+	if hit != nil {
+		r.ok(rule, key, c.at(hit), desc, "the functor of the resolved Arg(0) is compared with ','", true)
+	} else {
+		r.bad(rule, key, c.Pos(next.Pos()), desc, fmt.Sprintf("none of the %d comparisons with ',' looks at the left operand: ((A, !), B) yields (A, !) as one goal, compiled as a call of ','/2 in which the cut is local", ncmp))
+	}
+	r.analysed(rule, fname(next))
+}
